@@ -169,8 +169,11 @@ CLAIMS["C04"] = {
             "import names the declaration; conversely the truth table of each of the three import loops (wildcard import, "
             "whole-module import, by-name import) over package relation x name equalities x alias form x name form x parent "
             "(120 cells) equals the reference condition, so a public re-export is also recognised; no memo cache in the visitor "
-            "is under-keyed. Known findings: enums have no publicity at all. The string matching inside re-export recognition "
-            "(endswith / substring tests on arbitrary names) is taken as the atom of these tables and is not decided itself.",
+            "is under-keyed; probes on constants and on a concrete re-export map decide the exactness of that matching for the "
+            "shapes the oracles found (private twin module, name coincidence with a module import, relative paths of several "
+            "segments by name and by star). Known findings: enums have no publicity at all, __all__ and TYPE_CHECKING are not "
+            "read, the level of a relative import is not recorded. Apart from those probes the string matching inside re-export "
+            "recognition (suffix / membership tests on arbitrary names) is taken as the atom of these tables and is not decided itself.",
     "note": TRUST,
     "technique": "per-iteration effect analysis of emission loops + decision-table extraction + path-fact conditions",
     "ref": "DESIGN.md section 5 C04",
